@@ -256,6 +256,16 @@ def fn(env, name, args):
         if not all(isinstance(v, bool) for v in vals):
             return UNSURE
         return all(vals) if name == 'AND' else any(vals)
+    if name == 'INDEX':
+        # INDEX(<rectangle or name>, row, col): the cell at that position (a reference: a blank stays a blank reference)
+        a = args[0]
+        rect = a[1] if a[0] == 'rng' else env.names[a[1]]['rect']
+        b, s, r1, c1, r2, c2 = rect
+        r, c = int(args[1][1]), int(args[2][1])
+        if not (1 <= r <= r2 - r1 + 1 and 1 <= c <= c2 - c1 + 1):
+            return X.REF
+        v = env.get((b, s, r1 + r - 1, c1 + c - 1))
+        return BFB if isinstance(v, Blank) else v
     if name in ('LEN', 'LEFT', 'UPPER'):
         a = ev(env, args[0])
         if isinstance(a, Unsure):
